@@ -7,6 +7,7 @@ TARGETS += [("fn", "menelaus.change_detection.adwin:ADWIN.update"), ("fn", "mene
             ("fn", "menelaus.data_drift.kdq_tree:KdqTreeBatch.update"), ("fn", "menelaus.data_drift.nndvi:NNDVI.update"),
             ("fn", "menelaus.concept_drift.md3:MD3.update"), ("fn", "menelaus.concept_drift.md3:MD3.give_oracle_label"),
             ("fn", "menelaus.concept_drift.lfr:LinearFourRates.update@tnr")]
+TARGETS_THOROUGH = [("fn", "menelaus.data_drift.histogram_density_method:HistogramDensityMethod.update")]
 SUPPORT = [SCALAR[c] + ".reset" for c in SCALAR]
 LEVEL = "proof"
 ASSUMPTIONS = A_COMMON + [
